@@ -1,6 +1,7 @@
 package checks
 
 import (
+	"bytes"
 	"fmt"
 	"io"
 	"runtime"
@@ -21,7 +22,7 @@ func init() { register(c07{}) }
 func (c07) ID() string    { return "C07" }
 func (c07) Level() string { return "exploration" }
 func (c07) Rule() string {
-	return "frames (valid ones of all types from the library and the reference encoder, short forms, content-malformed ones, type 0) x delivery schedules allowed by io.Reader: ALL compositions of the frame length into chunk sizes for frames up to 10 bytes (14 in the thorough tier), and for longer frames all two-chunk splits (<=2 KiB), one byte at a time, random compositions, splits at every field boundary +-1, and two frames pipelined in one stream (boundary inside one Read); each schedule also with (0,nil) reads interleaved and with the final chunk delivered as (n, io.EOF). Oracle: differential against the same frame read from a contiguous reader (same accessor snapshot, or rejection in both). distinct = (frame digest, schedule); non-trivial = the schedule splits the frame or adds zero-length reads"
+	return "frames (valid ones of all types from the library and the reference encoder, short forms, content-malformed ones, type 0) x delivery schedules allowed by io.Reader: ALL compositions of the frame length into chunk sizes for frames up to 10 bytes (14 in the thorough tier), and for longer frames all two-chunk splits (<=2 KiB), one byte at a time, random compositions, splits at every field boundary +-1, two frames pipelined in one stream (boundary inside one Read), and a re-entrant reader that reads whole packets from a second stream inside its Read; each schedule also with (0,nil) reads interleaved and with the final chunk delivered as (n, io.EOF). Oracle: differential against the same frame read from a contiguous reader (same accessor snapshot, or rejection in both). distinct = (frame digest, schedule); non-trivial = the schedule splits the frame or adds zero-length reads"
 }
 func (c07) Assumptions() []string {
 	return []string{"schedules never violate the io.Reader contract (at most len(p) bytes, buffer not retained, (0,nil) only finitely often)", "error texts are not compared, only acceptance and accessor values"}
@@ -210,6 +211,26 @@ func (c07) Run(c *run.Ctx, phase, idx int) {
 		}
 		for i := 0; i < 6; i++ {
 			c07Variants(c, r, f, iso, randomSteps(r, n, false, 1+r.Intn(n)), "random")
+		}
+		// re-entrant reader: while this frame trickles in, whole other
+		// packets are read from another stream inside the reader's Read
+		{
+			other := genFrame(r, gen.Small)
+			for _, chunk := range []int{1, 3, 0} {
+				rr := &mon.ReentrantReader{Data: f.Bytes, Chunk: chunk, Inner: func() { mon.Read(bytes.NewReader(other.Bytes)) }}
+				c.Current(func() string {
+					return fmt.Sprintf("ReadPacket frame=%s reentrant-reader chunk=%d other=%s", hexClip(f.Bytes, 512), chunk, hexClip(other.Bytes, 256))
+				})
+				res := mon.Read(rr)
+				c.Eval(1)
+				c.Distinct(run.HashBytes(run.Hash64("reentrant", itoa(chunk), string(other.Bytes)), f.Bytes), true)
+				c.Count("schedules", "reentrant-reader", 1)
+				if ok, why := sameOutcome(iso, res); !ok {
+					c.Violation("C07/reentrant-reader/"+f.Kind+"/"+acceptWord(iso.Accepted), fmt.Sprintf("%s frame of %d bytes delivered by a reader that reads another packet from a second stream inside Read (chunk %d): %s", tname(f.Type), n, chunk, why),
+						map[string]interface{}{"frame": hexClip(f.Bytes, 2048), "other_stream": hexClip(other.Bytes, 512), "chunk": chunk})
+					break
+				}
+			}
 		}
 		// pipelined: the next frame's bytes may arrive in the same Read as
 		// the end of this one; neither result may depend on that
